@@ -66,6 +66,9 @@ type hubOp struct {
 	Topic   string     `json:"topic,omitempty"`  // api
 	Sub     string     `json:"sub,omitempty"`    // api.get: label of the subscriber ("" = unknown id)
 	INM     string     `json:"if_none_match,omitempty"`
+	// sub: every SetWriteDeadline on this connection's ResponseWriter fails (connection torn down under the handler);
+	// to the model this is a connection whose next write fails
+	DeadlineErr bool `json:"deadline_err,omitempty"`
 }
 
 type hubCase struct {
@@ -91,6 +94,7 @@ type liveConn struct {
 	done   atomic.Bool
 	gate   chan struct{}
 	mu     sync.Mutex
+	dlTold bool // the model has been told that this connection (failing SetWriteDeadline) is gone
 }
 
 // leidCheck: what a reconnecting '*' subscriber asked for, what it was answered, what was stored then.
@@ -574,6 +578,7 @@ func runHubCaseRaw(c *h.Ctx, r *h.Report, o *gen.Oracle, cs hubCase, uuidGen *co
 				lc.w.onWrite = nil
 				lc.w.gateFn = lc.gateFn
 				lc.w.holdFail = true
+				lc.w.deadlineErr = op.DeadlineErr
 				hr.conns = append(hr.conns, lc)
 				go func() {
 					defer lc.done.Store(true)
@@ -636,6 +641,9 @@ func runHubCaseRaw(c *h.Ctx, r *h.Report, o *gen.Oracle, cs hubCase, uuidGen *co
 				}
 				emit(h.Line(append(append([]string{subOp, h.Itoa(op.Label)}, a.wire(false)...), h.HexList(op.Topics), h.Hex(op.LeidH), h.Hex(op.LeidQ), legacy)...),
 					fmt.Sprintf("%d %s leid=%s", status, h.Hex(body), leid))
+				if op.DeadlineErr && status == 200 {
+					r.Count("connection whose SetWriteDeadline fails")
+				}
 			case "disc":
 				for _, lc := range hr.conns {
 					if lc.label == op.Label {
@@ -741,6 +749,18 @@ func runHubCaseRaw(c *h.Ctx, r *h.Report, o *gen.Oracle, cs hubCase, uuidGen *co
 					emit(h.Line(append(append([]string{"hub.api.list"}, a.wire(false)...), h.Hex(req.URL.RequestURI()), h.Hex(op.Topic), h.Hex(op.INM))...), got)
 				} else {
 					emit(h.Line(append(append([]string{"hub.api.get"}, a.wire(false)...), h.Hex(req.URL.RequestURI()), h.Hex(op.Topic), h.Hex(sid), h.Hex(op.INM))...), got)
+				}
+			}
+			// a connection whose SetWriteDeadline fails: its first event is written (no write timeout is configured, so
+			// no deadline is set before the write), then re-arming the default deadline fails and the handler ends the
+			// stream — to the model, a client that goes away right after that event
+			for _, lc := range hr.conns {
+				lc.w.mu.Lock()
+				died := lc.w.deadlineErr && lc.w.dlCalls > 1 && !lc.dlTold
+				lc.w.mu.Unlock()
+				if died {
+					lc.dlTold = true
+					emit(h.Line("hub.disc", h.Itoa(lc.label)), "ok")
 				}
 			}
 			emit("hub.obs", hr.obs())
